@@ -16,10 +16,13 @@ UNITS = {n: Unit('att_e14_%d' % n, shim='shims/att_e14.cpp', flags=['-DE14_PART=
          for n, d in CFG_DESCRIPTION.items()}
 
 GROUP = 4          # buffer sizes per case
+THOROUGH_ONLY = (4, 8)   # declarations for which the quick tier checks buffer sizes 28..31 only (quick tier budget)
 
 
 def cases_for(cfg):
     def cases(tier):
+        if tier == 'quick' and cfg in THOROUGH_ONLY:
+            return [{'CFG': cfg, 'LO': 28, 'CNT': GROUP, 'RTLEN': 0}]
         rtlens = [0]
         if cfg == 6:
             rtlens = [35] if tier == 'quick' else [0, 12, 31, 35]
@@ -46,7 +49,7 @@ PROPERTY = Property(
                'details::default_list_of_16_bit_service_uuids / default_list_of_128_bit_service_uuids', 'no_list_of_service_uuids', 'advertise_appearance::advertising_data',
                'peripheral_connection_interval_range::advertising_data', 'custom_advertising_data / custom_scan_response_data',
                'runtime_custom_advertising_data / runtime_custom_scan_response_data (set + get + dirty flag)', 'server::advertising_or_scan_response_data_has_been_changed'],
-    bounds='nine server declarations; every buffer size 0..31; run time custom data of arbitrary content with 35 (quick) / 0, 12, 31, 35 (thorough) octets',
+    bounds='nine server declarations (quick tier: declarations 4 and 8 with buffer sizes 28..31 only); every buffer size 0..31; run time custom data of arbitrary content with 35 (quick) / 0, 12, 31, 35 (thorough) octets',
     assumptions=['custom data (declarations 5, 6): the custom data declared / set by the application is itself a well-formed sequence of AD structures (the application\'s part of the contract)',
                  'trailing zero octets behind a zero length octet are accepted as early termination (Core Spec Vol 3 Part C 11); bluetoe appends 00 00 on purpose',
                  'an absent name / UUID list (no room) is accepted; no order of the AD structures is demanded; the scan response need not carry flags'],
